@@ -408,7 +408,7 @@ theorem streaming_row_agrees_cached_row (idx : Nat) (r : Row) (hnum : r.r = idx 
 
 /-- the hypothesis is needed: when a reference steps backwards (C1 then A1) the streaming
 reader continues from the reference (the next cell without `r` is B), `checkRow` from the
-greatest column so far (D) — outside the representation invariant the two placements differ. -/
+column after the greatest position so far (E) — outside the representation invariant the two placements differ. -/
 theorem placement_needs_ascending :
     let cs : List Cell := [⟨3, 1, ['x'], false, false⟩, ⟨1, 1, ['y'], false, false⟩,
       ⟨0, 0, ['z'], false, false⟩]
